@@ -326,3 +326,30 @@ Definition conform (d : mdgdata) : bool :=
   forallb iface_ok (md_ifaces d) &&
   forallb (fun h => tags_ok (fst h) (snd h)) (md_hosts d) &&
   qnear (qsum (md_vols d)) (md_domain d).
+
+(* ------------------------------------------------------------------ requested geometry
+   (added after the first round; the definitions above are unchanged)
+   The md-grid against what was ASKED for: every fracture grid (and, in 3-D with two
+   rectangles, the intersection line grids together) has the measure of the requested
+   fracture; the host grid spans exactly the requested domain box; one fracture grid per
+   requested fracture. *)
+Record request := mkREQ {
+  rq_meas : list (list Q * Q);     (* (cell volumes of a lower grid, requested measure) *)
+  rq_span : list (Q * Q);          (* per axis: min / max node coordinate of the host *)
+  rq_box : list (Q * Q);           (* per axis: requested domain min / max *)
+  rq_ngrids : nat;                 (* number of codimension-one grids *)
+  rq_nfracs : nat                  (* number of requested fractures *)
+}.
+
+Fixpoint span_ok (a b : list (Q * Q)) : bool :=
+  match a, b with
+  | [], [] => true
+  | x :: r, y :: s => qnear (fst x) (fst y) && qnear (snd x) (snd y) && span_ok r s
+  | _, _ => false
+  end.
+
+Definition request_ok (r : request) : bool :=
+  forallb (fun m => qnear (qsum (fst m)) (snd m)) (rq_meas r) &&
+  span_ok (rq_span r) (rq_box r) && (rq_ngrids r =? rq_nfracs r)%nat.
+
+Definition conform_req (d : mdgdata) (r : request) : bool := conform d && request_ok r.
